@@ -962,6 +962,65 @@ class Fn:
 
 
 # --------------------------------------------------------------------------
+# lockset (A4): forward must-analysis of held locks
+
+LOCK_FNS = {'qb_thread_lock': 0, 'pthread_mutex_lock': 0, 'pthread_spin_lock': 0,
+            'pthread_rwlock_wrlock': 0, 'pthread_rwlock_rdlock': 0}
+UNLOCK_FNS = {'qb_thread_unlock': 0, 'pthread_mutex_unlock': 0, 'pthread_spin_unlock': 0,
+              'pthread_rwlock_unlock': 0}
+
+
+def lock_name(arg):
+    a = unwrap(arg)
+    if isinstance(a, dict) and a.get('k') == 'addr':
+        a = unwrap(a['e'])
+    lf = last_field(a)
+    if lf:
+        return lf[1]
+    return estr(a)
+
+
+def lockset(fn, entry=frozenset(), extra_lock=None, extra_unlock=None):
+    """(block id, event index) -> frozenset of lock names certainly held just
+    before that event.  Lock identity = outermost field / variable name of the
+    argument.  extra_lock/extra_unlock: callee name -> lock name (wrappers)."""
+    extra_lock = extra_lock or {}
+    extra_unlock = extra_unlock or {}
+    IN = {fn.entry: frozenset(entry)}
+    work = [fn.entry]
+    at = {}
+
+    def transfer(bid, cur, record):
+        cur = set(cur)
+        for ev in fn.blocks[bid].events:
+            if record:
+                at[(bid, ev.idx)] = frozenset(cur)
+            if ev.kind == 'CALL':
+                c = ev.callee
+                if c in LOCK_FNS and ev.args:
+                    cur.add(lock_name(ev.args[LOCK_FNS[c]]))
+                elif c in UNLOCK_FNS and ev.args:
+                    cur.discard(lock_name(ev.args[UNLOCK_FNS[c]]))
+                elif c in extra_lock:
+                    cur.add(extra_lock[c])
+                elif c in extra_unlock:
+                    cur.discard(extra_unlock[c])
+        return frozenset(cur)
+
+    while work:
+        b = work.pop()
+        out = transfer(b, IN[b], False)
+        for (t, _l) in fn.blocks[b].succs:
+            new = out if t not in IN else (IN[t] & out)
+            if t not in IN or new != IN[t]:
+                IN[t] = new
+                work.append(t)
+    for b in IN:
+        transfer(b, IN[b], True)
+    return at, IN
+
+
+# --------------------------------------------------------------------------
 # finite abstract evaluation (A3)
 
 TOP = object()
